@@ -673,6 +673,8 @@ def const_val(c):
         if k in c:
             if k == "int" and "variant" in c and c["variant"]:
                 return ("variant", c["variant"])
+            if "named" in c:
+                return (k, c[k], c["named"])
             return (k, c[k])
     if "promoted" in c:
         return ("promoted", c["promoted"])
